@@ -26,11 +26,20 @@ Op(z) ==
   IN [op |-> op, dir |-> Pick(z, <<"ENTER", "ENTER", "LEAVE", "LEAVE", "DIRECTION_UNSPECIFIED">>),
       echo |-> Flip(z, 15), se |-> Rel(z), sl |-> Rel(z)]
 
+\* a random permutation of a sequence
+RECURSIVE Shuffle(_, _)
+Shuffle(z, s) == IF s = <<>> THEN <<>>
+                 ELSE LET i == RandomElement(1..Len(s))
+                      IN <<s[i]>> \o Shuffle(z, [j \in 1..(Len(s) - 1) |-> IF j < i THEN s[j] ELSE s[j + 1]])
+
 Prog(k) ==
   LET hasInit == Flip(k, 70)
+      none == [kind |-> "clock", init |-> DefaultInit, via |-> "model"]
+      opts == Shuffle(k, (IF hasInit THEN <<[none EXCEPT !.kind = "init", !.init = [enter |-> OptTotal(k, 60), leave |-> OptTotal(k, 60)],
+                                                          !.via = Pick(k, <<"model", "model", "resource">>)]>> ELSE <<>>)
+                         \o (IF Flip(k, 50) THEN <<none>> ELSE <<>>))
   IN [model |-> "enterleave", n |-> k,
-      cfg |-> [hasInit |-> hasInit,
-               init |-> IF hasInit THEN [enter |-> OptTotal(k, 60), leave |-> OptTotal(k, 60)] ELSE DefaultInit],
+      cfg |-> [opts |-> opts, hasInit |-> HasOpt(opts, "init"), init |-> ConfInit(opts)],
       ops |-> [j \in 1..R(10..MaxOps) |-> Op(k)]]
 
 GenInit == c \in { Prog(k) : k \in 1..NCases }
